@@ -57,13 +57,19 @@ type gqlResponse struct {
 	Status int             `json:"-"`
 }
 
-func post(srv *handler.Server, query string, variables map[string]any) (*gqlResponse, error) {
+// postRaw sends one POST request through the real handler and returns the response bytes.
+func postRaw(srv *handler.Server, query string, variables map[string]any) ([]byte, int) {
 	body, _ := json.Marshal(map[string]any{"query": query, "variables": variables})
 	req := httptest.NewRequest(http.MethodPost, "/query", bytes.NewReader(body))
 	req.Header.Set("Content-Type", "application/json")
 	rec := httptest.NewRecorder()
 	srv.ServeHTTP(rec, req)
-	out := &gqlResponse{Raw: rec.Body.Bytes(), Status: rec.Code}
+	return rec.Body.Bytes(), rec.Code
+}
+
+func post(srv *handler.Server, query string, variables map[string]any) (*gqlResponse, error) {
+	raw, code := postRaw(srv, query, variables)
+	out := &gqlResponse{Raw: raw, Status: code}
 	if err := json.Unmarshal(out.Raw, out); err != nil {
 		return out, fmt.Errorf("response is not JSON: %v: %.200s", err, out.Raw)
 	}
